@@ -1,12 +1,156 @@
 import CTM.Drive.Util
+import CTM.Model.Chunking
+import CTM.Model.Sparse
 open Lean
 
 namespace CTM.Drive.Sparse
-open CTM CTM.Drive
+open CTM CTM.Drive CTM.Chunking CTM.Sparse
 
-/-- ops of this module (stub: none yet) -/
-def handle : Handler := fun op _inp =>
+/-- `{"indptr": [...], "indices": [...], "data": [...] | null}`; a missing
+value array (transposition without `data`) is replaced by zeros -/
+def parseMat (j : Json) : R (Mat Rat) := do
+  let ip ← natList (← field j "indptr")
+  let ind ← natList (← field j "indices")
+  let dj := fieldD j "data" Json.null
+  let dat ← if dj.isNull then pure (List.replicate ind.length (0 : Rat)) else ratList dj
+  return ⟨ip, ind, dat⟩
+
+def jVal (q : Rat) : Json := if q.den == 1 then jInt q.num else jRat q
+def jMat (M : Mat Rat) : Json :=
+  jObj [("indptr", jNats M.indptr), ("indices", jNats M.indices), ("data", jList jVal M.data)]
+def jDense (D : Dense Rat) : Json := jList (jList jVal) D
+def parseDense (j : Json) : R (Dense Rat) := asList ratList j
+
+def jExcept {α} (f : α → Json) : Except SpErr α → Json
+  | .ok a => jObj [("ok", f a)]
+  | .error e => jObj [("err", jStr e.name)]
+
+def jPairs (ps : List (Nat × Nat)) : Json := jList (jPair jNat jNat) ps
+def jBlocks (bs : List (Dense Rat × Nat × Nat)) : Json :=
+  jList (fun b => Json.arr #[jDense b.1, jNat b.2.1, jNat b.2.2]) bs
+
+def parseSlice (j : Json) : R (Option (Nat × Nat)) := asOption (asPair asNat asNat) j
+
+/-- `{"countGb": q, "loadGb": q, "elGb": q, "dataBytes": n, "indptrBytes": n,
+"indicesBytes": n}` or directly `{"loCount": n, "lo": n, "el": n}` -/
+def parseBudget (j : Json) : R Budget := do
+  match j.getObjVal? "lo" with
+  | .ok _ =>
+    return { loCount := ← asNat (← field j "loCount"), lo := ← asNat (← field j "lo"),
+             el := ← asNat (← field j "el") }
+  | .error _ =>
+    return Budget.of (← asRat (← field j "countGb")) (← asRat (← field j "loadGb"))
+      (← asRat (← field j "elGb")) (← asNat (← field j "dataBytes"))
+      (← asNat (← field j "indptrBytes")) (← asNat (← field j "indicesBytes"))
+
+def jBudget (b : Budget) : Json :=
+  jObj [("loCount", jNat b.loCount), ("lo", jNat b.lo), ("el", jNat b.el)]
+
+def handle : Handler := fun op inp =>
   match op with
+  | "sparse.chunks" => some do
+      return jPairs (chunks (← asNat (← field inp "n")) (← asNat (← field inp "cs")))
+  | "sparse.effChunk" => some do
+      return jNat (effChunk (← asNat (← field inp "n")) (← asNat (← field inp "nProc"))
+        (← asNat (← field inp "cs")))
+  | "sparse.budget" => some do
+      return jBudget (← parseBudget (← field inp "budget"))
+  | "sparse.toDense" => some do
+      let M ← parseMat (← field inp "mat")
+      return jDense (toDense 0 M (← asNat (← field inp "nMajor")) (← asNat (← field inp "nMinor")))
+  | "sparse.iter" => some do
+      -- kind = csr | csc | dense
+      let kind ← asStr (← field inp "kind")
+      let cs ← asNat (← field inp "cs")
+      if kind == "dense" then
+        let D ← parseDense (← field inp "dense")
+        return jObj [("ok", jBlocks (denseIter D cs))]
+      else
+        let M ← parseMat (← field inp "mat")
+        let nRows ← asNat (← field inp "nRows")
+        let nCols ← asNat (← field inp "nCols")
+        if kind == "csr" then
+          return jExcept jBlocks (csrIter 0 M nRows nCols cs)
+        else
+          let B ← parseBudget (← field inp "budget")
+          return jExcept jBlocks (cscIter 0 M nRows nCols cs B)
+  | "sparse.getChunk" => some do
+      let r0 ← asNat (← field inp "r0")
+      let r1 ← asNat (← field inp "r1")
+      let kind ← asStr (← field inp "kind")
+      if kind == "dense" then
+        let D ← parseDense (← field inp "dense")
+        return jObj [("ok", jBlocks [denseGetChunk D r0 r1])]
+      else
+        let M ← parseMat (← field inp "mat")
+        let nCols ← asNat (← field inp "nCols")
+        return jExcept (fun b => jBlocks [b]) (csrGetChunk 0 M nCols r0 r1)
+  | "sparse.getBatch" => some do
+      let rows ← natList (← field inp "rows")
+      let kind ← asStr (← field inp "kind")
+      let nCols ← asNat (← field inp "nCols")
+      if kind == "dense" then
+        let D ← parseDense (← field inp "dense")
+        return jExcept jDense (denseGetBatch 0 D nCols rows)
+      else
+        let M ← parseMat (← field inp "mat")
+        return jExcept jDense (csrGetBatch 0 M nCols rows)
+  | "sparse.loadDisjoint" => some do
+      let M ← parseMat (← field inp "mat")
+      return jExcept jMat (loadDisjoint M (← natList (← field inp "rows")))
+  | "sparse.mergeIndexList" => some do
+      return jExcept jPairs (mergeIndexList (← natList (← field inp "xs")))
+  | "sparse.transpose" => some do
+      let M ← parseMat (← field inp "mat")
+      let imax ← asNat (← field inp "indicesMax")
+      let sl ← parseSlice (fieldD inp "slice" Json.null)
+      let B ← parseBudget (← field inp "budget")
+      let blocks := match calcIndptr M.indices imax sl B.loCount with
+        | .ok r => blockCuts r.1 B.el
+        | .error _ => []
+      return jObj [("res", jExcept jMat (transposeOnDisk M imax sl B)),
+                   ("flat", jExcept jMat (transposeOnDiskFlat 0 M imax sl B)),
+                   ("budget", jBudget B), ("blocks", jPairs blocks)]
+  | "sparse.transposeV2" => some do
+      let M ← parseMat (← field inp "mat")
+      let imax ← asNat (← field inp "indicesMax")
+      let nProc ← asNat (← field inp "nProc")
+      let B ← parseBudget (← field inp "budget")
+      return jObj [("res", jExcept jMat (transposeV2 M imax nProc B)), ("budget", jBudget B),
+                   ("slices", jPairs (chunks imax (ceilDiv imax nProc)))]
+  | "sparse.pivot" => some do
+      let M ← parseMat (← field inp "mat")
+      let nCols ← asNat (← field inp "nCols")
+      let nProc ← asNat (← field inp "nProc")
+      let B ← parseBudget (← field inp "budget")
+      let delta ← asNat (← field inp "delta")
+      return jExcept jMat (pivotCsr M nCols nProc B delta)
+  | "sparse.shuffle" => some do
+      let M ← parseMat (← field inp "mat")
+      return jMat (shuffleRows M (← natList (← field inp "order")))
+  | "sparse.subset" => some do
+      let M ← parseMat (← field inp "mat")
+      return jMat (subsetColumns M (← natList (← field inp "chosen")))
+  | "sparse.amalgamate" => some do
+      let parts ← asList parseMat (← field inp "parts")
+      return jMat (amalgamateCsr parts)
+  | "sparse.mergeCsr" => some do
+      let parts ← asList parseMat (← field inp "parts")
+      return jMat (mergeCsr parts)
+  | "sparse.chunkCopy" => some do
+      return jList jVal (chunkCopy (← asNat (← field inp "c")) (← ratList (← field inp "xs")))
+  | "sparse.copyDense" => some do
+      let D ← parseDense (← field inp "dense")
+      let ch ← asOption (asPair asNat asNat) (fieldD inp "chunks" Json.null)
+      return jDense (copyDenseLayer ch D (← asNat (← field inp "nCols")))
+  | "sparse.tileCopy" => some do
+      let D ← parseDense (← field inp "dense")
+      let perDim ← asNat (← field inp "perDim")
+      let m ← asNat (← field inp "nCols")
+      return jDense (tileCopy (copySlices1 perDim D.length) (copySlices1 perDim m) D)
+  | "sparse.copySlices" => some do
+      let shape ← natList (← field inp "shape")
+      return jList jPairs (copySlices (← asNat (← field inp "perDim")) shape)
   | _ => none
 
 end CTM.Drive.Sparse
